@@ -33,6 +33,18 @@ class _Fwd(ast.NodeTransformer):
                 call = ast.UnaryOp(op=ast.Not(), operand=call)
                 call._vf_isnot = True
             return ast.copy_location(call, node)
+        # `x in "literal"` / `x not in "literal"`: membership in a literal string is the literal's __contains__; routed through
+        # __vf_litcall__ (rewrite 2) so that a symbolic character can answer it
+        if len(node.ops) == 1 and isinstance(node.ops[0], (ast.In, ast.NotIn)) and isinstance(node.comparators[0], ast.Constant) \
+                and isinstance(node.comparators[0].value, str):
+            self.n_lit += 1
+            call = ast.Call(func=ast.Name(id="__vf_litcall__", ctx=ast.Load()),
+                            args=[node.comparators[0], ast.Constant(value="__contains__"), node.left], keywords=[])
+            call._vf_in = True
+            if isinstance(node.ops[0], ast.NotIn):
+                call = ast.UnaryOp(op=ast.Not(), operand=call)
+                call._vf_notin = True
+            return ast.copy_location(call, node)
         return node
 
     def visit_Call(self, node):
@@ -54,6 +66,10 @@ class _Back(ast.NodeTransformer):
             c = node.operand
             self.generic_visit(c)
             return ast.Compare(left=c.args[0], ops=[ast.IsNot()], comparators=[c.args[1]])
+        if isinstance(node.op, ast.Not) and getattr(node, "_vf_notin", False):
+            c = node.operand
+            self.generic_visit(c)
+            return ast.Compare(left=c.args[2], ops=[ast.NotIn()], comparators=[c.args[0]])
         self.generic_visit(node)
         return node
 
@@ -61,6 +77,8 @@ class _Back(ast.NodeTransformer):
         self.generic_visit(node)
         if isinstance(node.func, ast.Name) and node.func.id == "__vf_is__":
             return ast.Compare(left=node.args[0], ops=[ast.Is()], comparators=[node.args[1]])
+        if isinstance(node.func, ast.Name) and node.func.id == "__vf_litcall__" and getattr(node, "_vf_in", False):
+            return ast.Compare(left=node.args[2], ops=[ast.In()], comparators=[node.args[0]])
         if isinstance(node.func, ast.Name) and node.func.id == "__vf_litcall__":
             return ast.Call(func=ast.Attribute(value=node.args[0], attr=node.args[1].value, ctx=ast.Load()),
                             args=node.args[2:], keywords=node.keywords)
@@ -89,6 +107,8 @@ def vf_is(a, b):
 
 
 def vf_litcall(lit, name, *args, **kw):
+    if name == "__contains__" and len(args) == 1 and hasattr(args[0], "__vf_in_literal__"):
+        return args[0].__vf_in_literal__(lit)
     if name == "join" and args:
         items = list(args[0])
         if any(hasattr(x, "__vf_join__") for x in items):
